@@ -1767,9 +1767,9 @@ impl<'arena> PrettyFormatter<'arena> {
             .manifest_parameter_view(parameter.binder)
             .map(|view| self.manifest_parameter(view, parameter.binder))
             .unwrap_or_else(|| match self.arena.pats[&parameter.binder] {
-                | Pattern::Ann(_) | Pattern::Manifest(_) | Pattern::Paren(_) => {
-                    self.pattern(parameter.binder)
-                }
+                | Pattern::Ann(_) | Pattern::Manifest(_) => self.pattern(parameter.binder),
+                // A parenthesized binder keeps the parameter's own parentheses: its
+                // group may be dropped as redundant, the parameter's may not.
                 | _ => self.delimited(
                     None,
                     "(",
